@@ -78,58 +78,24 @@ Proof.
   split; [destruct h; [discriminate|congruence]|]. split; [exact B|apply no_dotdot_spec; exact C].
 Qed.
 
-Definition slash_okb (cp : str) : bool :=
-  match rev cp with
-  | a :: b :: _ => negb ((a =? SLASH) && (b =? SLASH))
-  | _ => true
-  end.
-
-Lemma slash_okb_sound cp : slash_okb cp = true -> slash_ok cp.
-Proof.
-  unfold slash_okb, slash_ok. intros H q E. subst. rewrite rev_app_distr in H. simpl in H. discriminate.
-Qed.
-
-Definition morsel_okb (u : url) (m : morsel) : bool :=
-  slash_okb (cookie_path u m) &&
-  match m_maxage m, m_expires m with
-  | MA_invalid, EX_val _ => false
-  | MA_none, EX_val t => expires_value_used t
-  | _, _ => true
-  end.
-
-Lemma morsel_okb_sound u m : morsel_okb u m = true -> morsel_ok u m.
-Proof.
-  unfold morsel_okb, morsel_ok. rewrite andb_true_iff. intros [A B]. split; [apply slash_okb_sound; exact A|].
-  destruct (m_maxage m); destruct (m_expires m); try exact I; try discriminate; exact B.
-Qed.
-
+(* the hypothesis of the main theorem, executable: only the response hosts are constrained *)
 Definition op_okb (o : op) : bool :=
-  match o with
-  | OSet u ms => wf_hostb (u_host u) && forallb (morsel_okb u) ms
-  | _ => true
-  end.
+  match o with OSet u _ => wf_hostb (u_host u) | _ => true end.
 
 Lemma op_okb_sound o : op_okb o = true -> op_ok o.
-Proof.
-  destruct o; simpl; auto. rewrite andb_true_iff. intros [A B]. split; [apply wf_hostb_sound; exact A|].
-  apply Forall_forall. intros m Hm. apply morsel_okb_sound. rewrite forallb_forall in B. apply B. exact Hm.
-Qed.
+Proof. destruct o; simpl; auto. apply wf_hostb_sound. Qed.
 
 Lemma ops_okb_sound ops : forallb op_okb ops = true -> Forall op_ok ops.
 Proof.
   intro H. apply Forall_forall. intros o Ho. apply op_okb_sound. rewrite forallb_forall in H. apply H. exact Ho.
 Qed.
 
-(* only the hosts are constrained: the hypothesis of the full (refuted) statement *)
-Definition op_hosts_okb (o : op) : bool :=
-  match o with OSet u _ => wf_hostb (u_host u) | _ => true end.
-
 (* every attached cookie is one the RFC allows for this request *)
 Definition attached_allowed (unsafe : bool) (t0 : Z) (ops : list op) : Prop :=
   outputs_sound (snd (run (empty_jar unsafe, t0) ops)) (snd (rfc_run unsafe ([], t0) ops)).
 
-Theorem no_leak_partial_b unsafe t0 ops : forallb op_okb ops = true -> attached_allowed unsafe t0 ops.
-Proof. intro H. apply no_leak_partial. apply ops_okb_sound. exact H. Qed.
+Theorem no_leak_b unsafe t0 ops : forallb op_okb ops = true -> attached_allowed unsafe t0 ops.
+Proof. intro H. apply no_leak. apply ops_okb_sound. exact H. Qed.
 
 (* ------------------------------------------------------------ a response touches only its own domain *)
 
